@@ -176,6 +176,25 @@ def run(prog: Program, col: Collector, tier: str, refs: Optional[Refs] = None, c
     col.rule("R06.10", "the batch / event boundary of a tensor's array is computed from that tensor's own event rank", floor=2)
     _boundary_of_own_tensor(prog, col, refs, cat)
 
+    # a kernel for Lambda adds ONE axis for the bound variable, in front of the body's event dims: its position depends on the body's
+    # event rank, so a constant axis (unsqueeze(data, -1), data[..., None]) is only right for scalar bodies
+    for r in cat.registrations:
+        f = r.target
+        if f is None or not r.pattern or isinstance(f.node, ast.Lambda) or refs.resolve(r.pattern[0]) != "funsor.terms.Lambda" or not r.registry.startswith("funsor.interpretations."):
+            continue
+        if len(f.positional) < 2:
+            continue
+        body_p = f.positional[1]
+        for c in walk_no_nested(f.node):
+            if isinstance(c, ast.Call):
+                fn = c.func.attr if isinstance(c.func, ast.Attribute) else (c.func.id if isinstance(c.func, ast.Name) else "")
+                if fn in ("unsqueeze", "expand_dims") and len(c.args) >= 2:
+                    ax = c.args[1]
+                    const = isinstance(ax, ast.Constant) or (isinstance(ax, ast.UnaryOp) and isinstance(ax.operand, ast.Constant))
+                    if const:
+                        col.violation(f"{f.fq}::{norm(c)[:50]}", f"the axis for the bound variable is inserted at the constant position `{norm(ax)}`: it belongs in front of the event dims of "
+                                      f"`{body_p}`, whose number varies (a vector-valued body gets the new axis on the wrong side of its event shape)", f.loc(c), rule="R06.10")
+
     # ---------------------------------------------------------------- R06.11
     col.rule("R06.11", "axis labels for a tensor's array are generated in the order of that tensor's own inputs", floor=2)
     _axis_labels_in_layout_order(prog, col, refs, cat)
